@@ -134,6 +134,7 @@ func checkC17(e *Env) {
 	}
 	narrowingsGuarded(e, s, 65535, sizeLoop, "len(param:scts[rangeidx])")
 
+	iterationsIndependent(e, "ITER", e.fns("signedexchange/certurl.ReadCertChain", "signedexchange/certurl.NewCertChain", "signedexchange/certurl.(CertChain).Write", "signedexchange/certurl.(CertChain).Validate")...)
 	loopAlias(e, "ALIAS", e.fns("signedexchange/certurl.ReadCertChain", "signedexchange/certurl.NewCertChain")...)
 	e.R.Floor("ALIAS", 1)
 	e.R.Floor("GATE", 14)
